@@ -6,6 +6,7 @@ function-family table of the implementation (regenerated on every run).
 import DimModel.Lib.Transform
 import DimModel.Gen.TableC08
 import DimModel.Proofs.C08
+import DimModel.Proofs.C08Pct
 namespace DimModel
 open Lib
 
@@ -375,5 +376,333 @@ example : (∀ s ∈ ["y", "x"], ex23.dims.contains s = true) ∧
 
 open C08 in
 example : reduceAxis isum ex23 .none = .ok (.inl 15) := (reduce_none_row_major isum ex23).1
+
+/-! ## `lib.stats.percentile` / `quantile`: end-to-end statements about the mirrors `Lib.percentile`, `Lib.quantile`
+
+`redq q cells` is NumPy's `q`-th percentile of a 1-D list of cells (trusted, evaluated by NumPy in the correspondence
+check); everything else - which cells form a fibre, which axes remain, how the percentile dimension is named and
+labelled, the metadata - is proved. -/
+
+open PctLemmas
+
+/-- **one percentile along one dimension (rank ≥ 2)**: `percentile(a, q, axis=d)` with `d` a name or a position,
+`0 ≤ q ≤ 100`, on an array whose values have the shape its axes announce, with distinct dimension names and a non-empty
+dimension `d`, SUCCEEDS and returns an array
+* over the remaining axes in their original order, each with its labels and metadata (`a.axes.eraseIdx pos`),
+* with the array's metadata,
+* whose cell `j` is the `q`-th percentile of exactly the fibre of `a` through `j` along `d` (`fibre_get`: the cells at
+  `j` with every position of `d` inserted, in axis order);
+it is the array the generic reduction `apply_along_axis` (`reduceAxis`) returns for `f = q-th percentile`, with float
+values. `newaxis=` is not used for a single percentile. -/
+theorem percentile_scalar_spec {α : Type} [Inhabited α] (nan : α) (redq : Rat → List α → α) (a : DimArray α)
+    (k : DimKey) (pos : Nat) (q : Rat) (newaxis : Option String)
+    (hpos : dealWithAxis a (.one k) = .ok (a, some pos))
+    (hs : a.vals.shape = a.axes.map (·.size)) (hn : a.dims.Nodup) (hrank : a.ndim ≠ 1)
+    (hq : 0 ≤ q ∧ q ≤ 100) (hne : 0 < a.vals.shape.getD pos 0) :
+    ∃ r, percentile nan redq a (.scalar q) (.one k) newaxis = .ok (.inr r) ∧
+      r.axes = a.axes.eraseIdx pos ∧ r.attrs = a.attrs ∧ r.vals.shape = a.vals.shape.eraseIdx pos ∧
+      (∀ j, r.vals.get j = redq q (fibre a pos j)) ∧
+      reduceAxis (redq q) a (.one k) = .ok (.inr { r with vkind := a.vkind }) := by
+  have hp := (dealWithAxis_one_ok a a k pos hpos).2
+  refine ⟨_, percentile_scalar_pos nan redq a a (.one k) pos q newaxis hpos hp hs hn hrank hq hne,
+    rfl, rfl, rfl, fun _ => rfl, ?_⟩
+  have hr : (a.ndim == 1) = false := by simpa using hrank
+  unfold reduceAxis
+  simp only [hpos, bind, Except.bind, hr, Bool.false_eq_true, if_false, pure, Except.pure]
+  rfl
+
+/-- **a list of percentiles along one dimension (any rank ≥ 1)**: `percentile(a, [q_0, ..., q_{m-1}], axis=d,
+newaxis=n)` with `m ≥ 1` percentiles in [0, 100] (a list, a tuple or an array; repeats allowed, any order), on an array
+whose values have the shape its axes announce, with distinct dimension names, plain remaining axes and a non-empty
+dimension `d`, SUCCEEDS as soon as the name of the percentile dimension - `n` when given, else `<name of d>_percentile` -
+is not the name of a remaining dimension, and returns an array
+* whose FIRST dimension is new: it carries that name, the requested percentiles as labels, in the requested order (label
+  kind = the kind of the list), no metadata;
+* followed by the remaining axes of `a` in their original order, each with its labels and metadata;
+* with the array's metadata;
+* of shape `m :: (shape without d)`, whose cell `(i, j)` is the `q_i`-th percentile of exactly the fibre of `a` through
+  `j` along `d`. -/
+theorem percentile_spec {α : Type} [Inhabited α] (nan : α) (redq : Rat → List α → α) (a : DimArray α)
+    (k : DimKey) (pos : Nat) (qs : List Rat) (kind : Kind) (newaxis : Option String) (name : String)
+    (hpos : dealWithAxis a (.one k) = .ok (a, some pos))
+    (hs : a.vals.shape = a.axes.map (·.size)) (hn : a.dims.Nodup)
+    (hplain : ∀ ax ∈ a.axes.eraseIdx pos, ax.members = [])
+    (hqs : qs ≠ []) (hq : ∀ q ∈ qs, 0 ≤ q ∧ q ≤ 100) (hne : 0 < a.vals.shape.getD pos 0)
+    (hname : name = newaxis.getD ((a.axes.getD pos default).name ++ "_percentile"))
+    (hfresh : name ∉ a.dims.eraseIdx pos) :
+    ∃ r, percentile nan redq a (.many qs kind) (.one k) newaxis = .ok (.inr r) ∧
+      r.axes = { name := name, labels := qs.map Label.num, kind := kind } :: a.axes.eraseIdx pos ∧
+      r.dims = name :: a.dims.eraseIdx pos ∧
+      r.attrs = a.attrs ∧
+      r.vals.shape = qs.length :: a.vals.shape.eraseIdx pos ∧
+      ∀ (i : Nat) (hi : i < qs.length) (j : List Nat), r.vals.get (i :: j) = redq qs[i] (fibre a pos j) := by
+  have hp := (dealWithAxis_one_ok a a k pos hpos).2
+  obtain ⟨q0, qt, rfl⟩ : ∃ q0 qt, qs = q0 :: qt := by
+    cases qs with
+    | nil => exact absurd rfl hqs
+    | cons q0 qt => exact ⟨q0, qt, rfl⟩
+  have hfresh' : name ∉ (a.axes.eraseIdx pos).map (·.name) := by rw [dims_eraseIdx]; exact hfresh
+  refine ⟨_, percentile_many_pos nan redq a a (.one k) pos q0 qt kind newaxis name hpos hp hs hn hplain hq hne hname
+    hfresh', rfl, ?_, rfl, ?_, ?_⟩
+  · show name :: (a.axes.eraseIdx pos).map (·.name) = _
+    rw [dims_eraseIdx]; rfl
+  · simp [NDArr.stackNew, pctBlock]
+  · intro i hi j
+    simp only [NDArr.stackNew]
+    rw [List.getD_eq_getElem?_getD, List.getElem?_map, List.getElem?_eq_getElem hi]
+    rfl
+
+/-- **rank 1, one percentile**: the percentile of a 1-D array along its only axis (however designated) is a scalar,
+never an array with a stale axis: the `q`-th percentile of all its cells in order -/
+theorem percentile_rank1_spec {α : Type} [Inhabited α] (nan : α) (redq : Rat → List α → α) (a : DimArray α)
+    (k : DimKey) (pos : Nat) (q : Rat) (newaxis : Option String)
+    (hpos : dealWithAxis a (.one k) = .ok (a, some pos)) (hrank : a.ndim = 1)
+    (hshape : a.vals.shape.length = 1) (hq : 0 ≤ q ∧ q ≤ 100) (hne : a.vals.toList ≠ []) :
+    percentile nan redq a (.scalar q) (.one k) newaxis = .ok (.inl (redq q a.vals.toList)) := by
+  have hp0 : pos = 0 := by have := (dealWithAxis_one_ok a a k pos hpos).2; omega
+  subst hp0
+  obtain ⟨n, hn⟩ : ∃ n, a.vals.shape = [n] := by
+    match hsh : a.vals.shape, hshape with
+    | [n], _ => exact ⟨n, rfl⟩
+  have hn0 : 0 < a.vals.shape.getD 0 0 := by
+    have hl := toList_length a.vals
+    rw [hn] at hl ⊢
+    have : a.vals.toList.length ≠ 0 := fun h => hne (List.length_eq_zero_iff.mp h)
+    simp [prod] at hl
+    simp; omega
+  rw [percentile_scalar_rank1 nan redq a a (.one k) 0 q newaxis hpos hshape hq hn0, fibre_rank1 a n hn]
+
+/-- **axis=None, one percentile**: the whole array is reduced to one scalar - the `q`-th percentile of ALL cells in
+row-major order (`reduce_none_row_major` describes that list) -/
+theorem percentile_none_scalar {α : Type} [Inhabited α] (nan : α) (redq : Rat → List α → α) (a : DimArray α)
+    (q : Rat) (newaxis : Option String) (hq : 0 ≤ q ∧ q ≤ 100) (hne : a.vals.toList ≠ []) :
+    percentile nan redq a (.scalar q) .none newaxis = .ok (.inl (redq q a.vals.toList)) ∧
+    reduceAxis (redq q) a .none = .ok (.inl (redq q a.vals.toList)) := by
+  have hany := any_out_of_range_false [q] (by intro x hx; simp at hx; subst hx; exact hq)
+  have hext : (a.vals.toList.length == 0) = false := by
+    rw [beq_eq_false_iff_ne]; exact fun h => hne (List.length_eq_zero_iff.mp h)
+  refine ⟨?_, reduce_none_scalar _ a⟩
+  unfold percentile
+  simp only [dealWithAxis, bind, Except.bind, pure, Except.pure, PctArg.qs, hany, Bool.false_eq_true, if_false, hext,
+    List.isEmpty_nil, if_true]
+
+/-- **what is refused**: a percentile outside [0, 100] is NumPy's ValueError (whatever the rest of the call, once the
+axis resolves); an empty reduced dimension its IndexError; a list of percentiles over the whole array (axis=None)
+without `newaxis=` a TypeError (there is no dimension to name the percentile dimension after); an unknown dimension
+name a ValueError and a position outside the rank an IndexError, as for every reduction. -/
+theorem percentile_refuses {α : Type} [Inhabited α] (nan : α) (redq : Rat → List α → α) (a : DimArray α)
+    (newaxis : Option String) :
+    (∀ (ax : AxisArg) (o : DimArray α) (idx : Option Nat) (pct : PctArg), dealWithAxis a ax = .ok (o, idx) →
+      (∃ q ∈ pct.qs, q < 0 ∨ 100 < q) → percentile nan redq a pct ax newaxis = .error .value) ∧
+    (∀ (k : DimKey) (pos : Nat) (pct : PctArg), dealWithAxis a (.one k) = .ok (a, some pos) →
+      (∀ q ∈ pct.qs, 0 ≤ q ∧ q ≤ 100) → a.vals.shape.getD pos 0 = 0 →
+      percentile nan redq a pct (.one k) newaxis = .error .index) ∧
+    (∀ (qs : List Rat) (kind : Kind), (∀ q ∈ qs, 0 ≤ q ∧ q ≤ 100) → a.vals.toList ≠ [] →
+      percentile nan redq a (.many qs kind) .none none = .error .type) ∧
+    (∀ (pct : PctArg) (s : String), s ∉ a.dims → percentile nan redq a pct (.one (.name s)) newaxis = .error .value) ∧
+    (∀ (pct : PctArg) (i : Int), (i ≥ (a.ndim : Int) ∨ i < -(a.ndim : Int)) →
+      percentile nan redq a pct (.one (.pos i)) newaxis = .error .index) := by
+  refine ⟨?_, ?_, ?_, ?_, ?_⟩
+  · intro ax o idx pct hd ⟨q, hq, hbad⟩
+    have hany : pct.qs.any (fun q => decide (q < 0) || decide (q > 100)) = true := by
+      rw [List.any_eq_true]
+      refine ⟨q, hq, ?_⟩
+      rcases hbad with h | h <;> simp [h]
+    unfold percentile
+    simp only [hd, bind, Except.bind, hany, if_true]
+  · intro k pos pct hd hq h0
+    have hany := any_out_of_range_false pct.qs hq
+    unfold percentile
+    simp only [hd, bind, Except.bind, hany, Bool.false_eq_true, if_false, h0, beq_self_eq_true, if_true]
+  · intro qs kind hq hne
+    have hany := any_out_of_range_false qs hq
+    have hext : (a.vals.toList.length == 0) = false := by
+      rw [beq_eq_false_iff_ne]; exact fun h => hne (List.length_eq_zero_iff.mp h)
+    unfold percentile
+    simp only [dealWithAxis, bind, Except.bind, pure, Except.pure, PctArg.qs, hany, Bool.false_eq_true, if_false, hext,
+      Option.map_none]
+  · intro pct s hs
+    unfold percentile
+    simp only [dealWithAxis_unknown_name a s hs, bind, Except.bind]
+  · intro pct i hi
+    unfold percentile
+    simp only [dealWithAxis_out_of_range a i hi, bind, Except.bind]
+
+/-- **a tuple of dimensions** (`percentile(a, pct, axis=(d1, d2, ...))`, the names in any order): for a well-formed
+array with plain axes, a non-empty list of distinct names of its dimensions with non-empty product of sizes, whose joined
+name `"d1,d2,..."` is not the name of a remaining dimension: with `o = flatten(names, insert=0)` (C11 describes its
+cells: position `g` of the leading grouped axis is the `g`-th combination of member positions in row-major order of the
+listed names) and `rest` the remaining dimensions in their original order,
+* ONE percentile: when no dimension remains the result is a scalar, the percentile of all cells of `o`; otherwise an
+  array over the remaining axes (labels and metadata) with the array's metadata whose cell `j` is the percentile of
+  `o[0, j], o[1, j], ...` over ALL grouped positions;
+* a LIST of `m ≥ 1` percentiles: the percentile dimension comes first - named `newaxis` when given, else
+  `"d1,d2,..._percentile"`, which must not be the name of a remaining dimension - labelled with the requested
+  percentiles, then the remaining axes; the array's metadata; cell `(i, j)` is the `q_i`-th percentile of
+  `o[0, j], o[1, j], ...`. -/
+theorem percentile_tuple_spec {α : Type} [Inhabited α] (nan : α) (redq : Rat → List α → α) (a : DimArray α)
+    (names : List String) (newaxis : Option String)
+    (hwf : a.WF) (hne : names ≠ []) (hnd : names.Nodup) (hsub : ∀ d ∈ names, d ∈ a.dims)
+    (hplain : ∀ ax ∈ a.axes, ax.members = [])
+    (hjoin : ",".intercalate names ∉ a.dims.filter (fun d => !names.contains d))
+    (hprod : 0 < prod (names.map (fun d => (a.axisOf d).size))) :
+    ∃ o, flatten a names (some 0) = .ok o ∧
+      o.axes.tail = (a.dims.filter (fun d => !names.contains d)).map a.axisOf ∧
+      o.vals.shape.getD 0 0 = prod (names.map (fun d => (a.axisOf d).size)) ∧
+      (∀ q, 0 ≤ q ∧ q ≤ 100 →
+        (o.ndim = 1 → percentile nan redq a (.scalar q) (.many (names.map DimKey.name)) newaxis =
+          .ok (.inl (redq q ((List.range (o.vals.shape.getD 0 0)).map fun g => o.vals.get [g])))) ∧
+        (o.ndim ≠ 1 → ∃ r, percentile nan redq a (.scalar q) (.many (names.map DimKey.name)) newaxis = .ok (.inr r) ∧
+          r.axes = o.axes.tail ∧ r.attrs = a.attrs ∧ r.vals.shape = o.vals.shape.tail ∧
+          ∀ j, r.vals.get j = redq q ((List.range (o.vals.shape.getD 0 0)).map fun g => o.vals.get (g :: j)))) ∧
+      (∀ (qs : List Rat) (kind : Kind) (name : String), qs ≠ [] → (∀ q ∈ qs, 0 ≤ q ∧ q ≤ 100) →
+        name = newaxis.getD (",".intercalate names ++ "_percentile") →
+        name ∉ a.dims.filter (fun d => !names.contains d) →
+        ∃ r, percentile nan redq a (.many qs kind) (.many (names.map DimKey.name)) newaxis = .ok (.inr r) ∧
+          r.axes = { name := name, labels := qs.map Label.num, kind := kind } :: o.axes.tail ∧
+          r.attrs = a.attrs ∧ r.vals.shape = qs.length :: o.vals.shape.tail ∧
+          ∀ (i : Nat) (hi : i < qs.length) (j : List Nat),
+            r.vals.get (i :: j) = redq qs[i] ((List.range (o.vals.shape.getD 0 0)).map fun g => o.vals.get (g :: j))) := by
+  obtain ⟨o, hf, hd, haxes, hnm, hshape, hno, hpl, hsz, hrest, hattrs⟩ :=
+    flatten0_facts a names hwf hne hnd hsub hplain hjoin
+  have hpos : 0 < o.axes.length := by rw [haxes]; simp
+  have hext : 0 < o.vals.shape.getD 0 0 := by rw [hsz]; exact hprod
+  refine ⟨o, hf, by rw [haxes]; rfl, hsz, ?_, ?_⟩
+  · intro q hq
+    constructor
+    · intro h1
+      have hlen : o.vals.shape.length = 1 := by rw [hshape, List.length_map]; exact h1
+      rw [percentile_scalar_rank1 nan redq a o _ 0 q newaxis hd hlen hq hext]
+      rfl
+    · intro h1
+      refine ⟨_, percentile_scalar_pos nan redq a o _ 0 q newaxis hd hpos hshape hno h1 hq hext,
+        List.eraseIdx_zero, hattrs, List.eraseIdx_zero, fun _ => rfl⟩
+  · intro qs kind name hqs hq hname hfresh
+    obtain ⟨q0, qt, rfl⟩ : ∃ q0 qt, qs = q0 :: qt := by
+      cases qs with
+      | nil => exact absurd rfl hqs
+      | cons q0 qt => exact ⟨q0, qt, rfl⟩
+    refine ⟨_, percentile_many_pos nan redq a o _ 0 q0 qt kind newaxis name hd hpos hshape hno hpl hq hext
+      (by rw [hnm]; exact hname) (by rw [hrest]; exact hfresh), ?_, hattrs, ?_, ?_⟩
+    · show _ :: o.axes.eraseIdx 0 = _
+      rw [List.eraseIdx_zero]
+    · simp [NDArr.stackNew, pctBlock]
+    · intro i hi j
+      simp only [NDArr.stackNew]
+      rw [List.getD_eq_getElem?_getD, List.getElem?_map, List.getElem?_eq_getElem hi]
+      rfl
+
+/-- **quantile** (`quantile(a, [p_0, ..., p_{m-1}], axis=d, newaxis=n)`, levels in [0, 1] given as floats): under the
+hypotheses of `percentile_spec`, it SUCCEEDS and returns the array `percentile` returns for the percentiles `100 p_i` -
+same remaining axes, metadata and cells: cell `(i, j)` is the `100 p_i`-th percentile of the fibre of `a` through `j`
+along `d` - except that the new first dimension is named `n` when given, else `<name of d>_quantile`, and is labelled
+with the requested LEVELS `p_i` themselves (float labels). -/
+theorem quantile_spec {α : Type} [Inhabited α] (nan : α) (redq : Rat → List α → α) (a : DimArray α)
+    (k : DimKey) (pos : Nat) (ps : List Rat) (newaxis : Option String) (name : String)
+    (hpos : dealWithAxis a (.one k) = .ok (a, some pos))
+    (hs : a.vals.shape = a.axes.map (·.size)) (hn : a.dims.Nodup)
+    (hplain : ∀ ax ∈ a.axes.eraseIdx pos, ax.members = [])
+    (hps : ps ≠ []) (hp : ∀ p ∈ ps, 0 ≤ p ∧ p ≤ 1) (hne : 0 < a.vals.shape.getD pos 0)
+    (hname : name = newaxis.getD ((a.axes.getD pos default).name ++ "_quantile"))
+    (hfresh : name ∉ a.dims.eraseIdx pos) :
+    ∃ r, quantile nan redq a ps .f (.one k) newaxis = .ok (.inr r) ∧
+      r.axes = { name := name, labels := ps.map Label.num, kind := .f } :: a.axes.eraseIdx pos ∧
+      r.attrs = a.attrs ∧
+      r.vals.shape = ps.length :: a.vals.shape.eraseIdx pos ∧
+      ∀ (i : Nat) (hi : i < ps.length) (j : List Nat), r.vals.get (i :: j) = redq (ps[i] * 100) (fibre a pos j) := by
+  have hq : ∀ q ∈ ps.map (· * 100), 0 ≤ q ∧ q ≤ 100 := by
+    intro q hq
+    obtain ⟨p, hpm, rfl⟩ := List.mem_map.mp hq
+    have := hp p hpm
+    constructor
+    · exact Rat.mul_nonneg this.1 (by decide)
+    · have h := Rat.mul_le_mul_of_nonneg_right this.2 (show (0 : Rat) ≤ 100 by decide)
+      simpa using h
+  obtain ⟨r, hr, haxes, _, hattrs, hshape, hcells⟩ :=
+    percentile_spec nan redq a k pos (ps.map (· * 100)) .f (some name) name hpos hs hn hplain (by simpa using hps) hq
+      hne rfl hfresh
+  have hlab : (List.map Label.num (List.map (· * 100) ps)).map
+      (fun l => match l with | .num v => Label.num (v / 100) | l => l) = ps.map Label.num := by
+    rw [List.map_map, List.map_map]
+    apply List.map_congr_left
+    intro p _
+    show Label.num (p * 100 / 100) = Label.num p
+    congr 1
+    rw [Rat.mul_div_cancel (by decide)]
+  refine ⟨{ r with axes := r.axes.modifyHead fun x =>
+      { x with labels := x.labels.map fun l => match l with | .num v => .num (v / 100) | l => l } }, ?_, ?_, hattrs,
+    by rw [hshape, List.length_map], ?_⟩
+  · unfold quantile
+    simp only [hpos, bind, Except.bind, pure, Except.pure, Option.map_some]
+    cases newaxis with
+    | none =>
+      simp only [Option.getD_none] at hname
+      subst hname
+      simp only [hr]
+      rfl
+    | some n =>
+      simp only [Option.getD_some] at hname
+      subst hname
+      simp only [hr]
+      rfl
+  · show r.axes.modifyHead _ = _
+    rw [haxes]
+    simp only [List.modifyHead_cons, hlab]
+  · intro i hi j
+    have := hcells i (by rw [List.length_map]; exact hi) j
+    rw [this]
+    simp only [List.getElem_map]
+
+/-! ### the hypotheses are satisfiable: the 2 x 3 example, percentiles along "y" -/
+
+/-- a stand-in for NumPy's percentile on the examples: the entry at `⌊q (n-1) / 100⌋` of the list (the "lower"
+percentile of a sorted list) -/
+def C08.lowerPct (q : Rat) (l : List Int) : Int := l.getD (q * ((l.length - 1 : Nat) : Rat) / 100).floor.toNat 0
+
+open C08 in
+/-- hypotheses of `percentile_scalar_spec`, `percentile_spec` and `quantile_spec` (dimension "y", default name of the
+percentile dimension) -/
+example : dealWithAxis ex23 (.one (.name "y")) = .ok (ex23, some 1) ∧
+    ex23.vals.shape = ex23.axes.map (·.size) ∧ ex23.dims.Nodup ∧ ex23.ndim ≠ 1 ∧
+    (∀ ax ∈ ex23.axes.eraseIdx 1, ax.members = []) ∧ 0 < ex23.vals.shape.getD 1 0 ∧
+    (none : Option String).getD ((ex23.axes.getD 1 default).name ++ "_percentile") = "y_percentile" ∧
+    "y_percentile" ∉ ex23.dims.eraseIdx 1 ∧ "y_quantile" ∉ ex23.dims.eraseIdx 1 ∧
+    (∀ q ∈ [(50 : Rat), 100], 0 ≤ q ∧ q ≤ 100) ∧ (∀ p ∈ [(1 / 2 : Rat), 1], 0 ≤ p ∧ p ≤ 1) :=
+  ⟨dealWithAxis_name ex23 1 (by decide) (by decide), by decide, by decide, by decide, by decide, by decide, by decide,
+   by decide, by decide, by decide +kernel, by decide +kernel⟩
+
+open C08 in
+/-- ... and the mirror on this input: the medians and maxima of the rows `[0,1,2]`, `[3,4,5]`, under a new first
+dimension "y_percentile" labelled 50, 100, followed by "x" -/
+example :
+    (match percentile 0 lowerPct ex23 (.many [50, 100] .i) (.one (.name "y")) none with
+      | .ok (.inr r) => (r.dims, (r.axes.getD 0 default).labels, r.vals.shape, r.vals.toList)
+      | _ => ([], [], [], [])) =
+    (["y_percentile", "x"], [.num 50, .num 100], [2, 2], [1, 4, 2, 5]) := by decide +kernel
+
+open C08 in
+/-- one percentile: the remaining axis "x" only; over the whole array: a scalar -/
+example :
+    (match percentile 0 lowerPct ex23 (.scalar 50) (.one (.pos (-1))) none with
+      | .ok (.inr r) => (r.dims, r.vals.toList) | _ => ([], [])) = (["x"], [1, 4]) ∧
+    (match percentile 0 lowerPct ex23 (.scalar 100) .none none with
+      | .ok (.inl v) => v | _ => 7) = 5 := by decide +kernel
+
+open C08 in
+/-- hypotheses of `percentile_tuple_spec` (both dimensions, listed in reverse order) and the mirror on them: the
+grouped dimension is named "y,x", no dimension remains, the maximum over all cells under "y,x_percentile" -/
+example : ex23.WF ∧ ["y", "x"] ≠ [] ∧ ["y", "x"].Nodup ∧ (∀ d ∈ ["y", "x"], d ∈ ex23.dims) ∧
+    (∀ ax ∈ ex23.axes, ax.members = []) ∧
+    ",".intercalate ["y", "x"] ∉ ex23.dims.filter (fun d => !["y", "x"].contains d) ∧
+    0 < prod (["y", "x"].map (fun d => (ex23.axisOf d).size)) ∧
+    (match percentile 0 lowerPct ex23 (.many [100] .i) (.many [.name "y", .name "x"]) none with
+      | .ok (.inr r) => (r.dims, r.vals.toList) | _ => ([], [])) = (["y,x_percentile"], [5]) := by
+  refine ⟨by decide, by decide, by decide, by decide, by decide, by decide, by decide, by decide +kernel⟩
+
+open C08 in
+/-- what is refused (`percentile_refuses`): a percentile above 100, a list over the whole array without `newaxis=` -/
+example : (match percentile 0 lowerPct ex23 (.scalar 101) (.one (.name "y")) none with | .error e => e | _ => .other) = .value ∧
+    (match percentile 0 lowerPct ex23 (.many [50] .i) .none none with | .error e => e | _ => .other) = .type := by
+  decide +kernel
 
 end DimModel
